@@ -30,6 +30,48 @@ EXPLANATION = (
 EXEMPT_CLASSES = {'Math'}
 
 
+def _task(args):
+    model, cfg, facts, key, func, cls = args
+    unit = model.unit_of(func)
+    recs = []
+    n_holes = 0
+    outs = T.run_render_method(model, cfg, func, cls, facts)
+    for po in outs:
+        if po.truncated:
+            continue
+        if po.raised is not None:
+            recs.append(('note', '%s(%s) raises %s' % (func.short, cls.name, po.raised.exc.kind)))
+            continue
+        v = po.value
+        sk = v if isinstance(v, T.Skel) else T.Skel.of(v)
+        issues, holes = T.lex_tex(sk)
+        n_holes += len(holes)
+        if key in EXEMPT_CLASSES:
+            recs.append(('note', '%s returns %s for %s: passed through by design (math)' % (func.short, sk.text()[:40], key)))
+            continue
+        hole_issues = [i for i in issues if i[0] == 'hole']
+        bal = [i for i in issues if i[0] == 'balance']
+        recs.append(('ob', 'R-TEX-HOLE', not hole_issues, {'method': func.short, 'token': key, 'skeleton': sk.text()[:140],
+                                                           'holes': ['%s:%s' % (c, T._hole_name(h)) for c, h in holes]}))
+        recs.append(('ob', 'R-TEX-BALANCE', not bal, {'method': func.short, 'skeleton': sk.text()[:140]}))
+        for kind, detail, hole, hctx in hole_issues:
+            label = getattr(hole, 'label', None) or T._hole_name(hole)
+            recs.append(('find', 'R-TEX-HOLE', func.short, '%s->%s' % (label, (hctx or '').split(':')[0]),
+                         '%s (token %s): %s; skeleton %r' % (func.short, key, detail, sk.text()[:120]), loc(unit, func.node)))
+        for kind, detail, hole, hctx in bal:
+            recs.append(('find', 'R-TEX-BALANCE', func.short, detail[:50],
+                         '%s (token %s): %s; skeleton %r' % (func.short, key, detail, sk.text()[:120]), loc(unit, func.node)))
+        proven, d = check_verb(po, sk, holes)
+        if proven is not None:
+            recs.append(('inst', 'R-TEX-VERB'))
+            recs.append(('ob', 'R-TEX-VERB', proven, {'method': func.short, 'delimiter': d}))
+            if not proven:
+                recs.append(('find', 'R-TEX-VERB', func.short, 'verb-delimiter',
+                             '%s emits \\verb%s...%s on a path that does not establish that %r is absent from the '
+                             'content' % (func.short, d, d, d), loc(unit, func.node)))
+    return recs, n_holes, func.short
+
+
 def check_verb(po, sk, holes):
     """On a returning path of render_inline_code the chosen delimiter is proven absent."""
     for ctx, v in holes:
@@ -63,47 +105,19 @@ def run(ctx):
         by_name = {}
         for c in uni:
             by_name.setdefault(c.name, []).append(c)
+        tasks = []
         for key, func in sorted(cfg.render_map.items()):
             if not isinstance(func, FuncInfo):
                 continue
             for cls in by_name.get(key, []):
-                unit = model.unit_of(func)
-                rep.instance('R-TEX-HOLE')
-                methods.add(func.short)
-                outs = T.run_render_method(model, cfg, func, cls, facts)
-                for po in outs:
-                    if po.truncated:
-                        continue
-                    if po.raised is not None:
-                        rep.note('%s(%s) raises %s' % (func.short, cls.name, po.raised.exc.kind))
-                        continue
-                    v = po.value
-                    sk = v if isinstance(v, T.Skel) else T.Skel.of(v)
-                    issues, holes = T.lex_tex(sk)
-                    n_holes += len(holes)
-                    if key in EXEMPT_CLASSES:
-                        rep.note('%s returns %s for %s: passed through by design (math)' % (func.short, sk.text()[:40], key))
-                        continue
-                    hole_issues = [i for i in issues if i[0] == 'hole']
-                    bal = [i for i in issues if i[0] == 'balance']
-                    rep.obligation('R-TEX-HOLE', not hole_issues, {'method': func.short, 'token': key, 'skeleton': sk.text()[:140],
-                                                                   'holes': ['%s:%s' % (c, T._hole_name(h)) for c, h in holes]})
-                    rep.obligation('R-TEX-BALANCE', not bal, {'method': func.short, 'skeleton': sk.text()[:140]})
-                    for kind, detail, hole, hctx in hole_issues:
-                        label = getattr(hole, 'label', None) or T._hole_name(hole)
-                        rep.find('R-TEX-HOLE', func.short, '%s->%s' % (label, (hctx or '').split(':')[0]),
-                                 '%s (token %s): %s; skeleton %r' % (func.short, key, detail, sk.text()[:120]), loc(unit, func.node))
-                    for kind, detail, hole, hctx in bal:
-                        rep.find('R-TEX-BALANCE', func.short, detail[:50],
-                                 '%s (token %s): %s; skeleton %r' % (func.short, key, detail, sk.text()[:120]), loc(unit, func.node))
-                    proven, d = check_verb(po, sk, holes)
-                    if proven is not None:
-                        rep.instance('R-TEX-VERB')
-                        rep.obligation('R-TEX-VERB', proven, {'method': func.short, 'delimiter': d})
-                        if not proven:
-                            rep.find('R-TEX-VERB', func.short, 'verb-delimiter',
-                                     '%s emits \\verb%s...%s on a path that does not establish that %r is absent from the '
-                                     'content' % (func.short, d, d, d), loc(unit, func.node))
+                tasks.append((model, cfg, facts, key, func, cls))
+        from ..par import pmap
+        from .c08 import replay
+        for recs, nh, m in pmap(_task, tasks):
+            rep.instance('R-TEX-HOLE')
+            replay(rep, recs)
+            n_holes += nh
+            methods.add(m)
         # sanitisers from their own bodies
         for name, specials, what in (('render_raw_text', T.TEX_TEXT_SPECIALS, 'text'), ('escape_url', T.TEX_URL_SPECIALS, 'url')):
             hit = cfg.cls.lookup(name)
